@@ -264,7 +264,7 @@ func (c *checker) concurrent(rounds int) {
 		var mu sync.Mutex
 		var sends []sendRec
 		var fresh []*item
-		stuck := false
+		stuck, clientTimeout := false, false
 		for ui, u := range units {
 			seq++
 			rid := fmt.Sprintf("%d.%d", shard, seq)
@@ -296,6 +296,9 @@ func (c *checker) concurrent(rounds int) {
 				reqs := u.rec.snapshot()
 				mu.Lock()
 				defer mu.Unlock()
+				if timedOut(reqs) {
+					clientTimeout = true
+				}
 				if !okSend {
 					stuck = true
 					return
@@ -328,7 +331,11 @@ func (c *checker) concurrent(rounds int) {
 							req.Header.Set("Content-Type", "application/x-protobuf")
 							req.Header.Set("Content-Encoding", it.Enc)
 							var resp *http.Response
-							if resp, err = client.Do(req); err == nil {
+							if resp, err = client.Do(req); err != nil && (strings.Contains(err.Error(), "Client.Timeout") || strings.Contains(err.Error(), "deadline exceeded")) {
+								mu.Lock()
+								clientTimeout = true
+								mu.Unlock()
+							} else if err == nil {
 								_, _ = io.Copy(io.Discard, resp.Body)
 								resp.Body.Close()
 								s.status = resp.StatusCode
@@ -351,6 +358,10 @@ func (c *checker) concurrent(rounds int) {
 			abandoned = true
 			r.Inconclusive("forwarder-flush-watchdog")
 			return
+		}
+		if clientTimeout {
+			r.Inconclusive("concurrent-round-client-timeout")
+			continue
 		}
 		c.judgeConcurrent(round, sends, cap)
 		pool = append(pool, fresh...)
@@ -631,6 +642,10 @@ func (c *checker) retryCase(cfg compCfg, kind, fault string, idx int, tc *tcase)
 	}
 	if !sent {
 		r.Inconclusive("forwarder-flush-watchdog")
+		return
+	}
+	if timedOut(u.rec.snapshot()) {
+		r.Inconclusive("forwarder-client-timeout")
 		return
 	}
 	r.Eval(1)
